@@ -6,3 +6,49 @@ package parser
 
 // yyDebug is the goyacc debug level, written only by SetDebug (a debugging switch, never called on the compile path).
 //@ allow-global-write yyDebug
+
+// ---- lexer helpers: no input makes them index or slice outside the line (C11) ----
+
+//@ func DecodeEscape(in, byteMode) (out, err)
+//@   requires nn: in != nil
+//@   modifies *
+//@   ensures total: err == nil ==> out != nil
+//@   ensures verr: err != nil ==> raisesExc(err, py.ValueError)
+//@   loop 1 (i)
+//@     invariant idx: 0 <= i && out != nil
+
+//@ func countIndent(s) (r)
+//@   modifies *
+
+//@ func (*yyLex).cut(x, i) (cut)
+//@   requires rng: x != nil && 0 <= i && i <= len(x.line)
+//@   modifies x.line, x.pos
+//@   ensures rest: len(x.line) == old(len(x.line)) - i && len(cut) == i
+//@   ensures content: x.line == substr(old(x.line), i, nbytes(old(x.line))) && cut == substr(old(x.line), 0, i)
+
+// (no modifies clause: they change nothing; not `pure` because the variadic call of unicode.In allocates its argument slice)
+//@ func isIdentifierStart(c) (r)
+//@ func isIdentifierChar(c) (r)
+
+//@ func (*yyLex).readIdentifier(x) (r)
+//@   requires nn: x != nil
+//@   modifies x.line, x.pos
+//@   ensures shorter: len(x.line) + len(r) == old(len(x.line))
+
+//@ func (*yyLex).readIdentifierOrKeyword(x) (tok, r)
+//@   requires nn: x != nil
+//@   modifies x.line, x.pos
+
+//@ func (*yyLex).readOperator(x) (r)
+//@   requires nn: x != nil
+//@   modifies x.line, x.pos
+
+//@ func (*yyLex).readString(x) (token, value)
+//@   requires nn: x != nil
+//@   modifies *
+
+//@ func (*yyLex).queueDedents(x)
+//@   requires nn: x != nil && len(x.indentStack) >= 1
+//@   modifies *
+//@   loop 1 (i)
+//@     invariant stack: len(x.indentStack) == old(len(x.indentStack))
